@@ -84,3 +84,23 @@ Theorem C15_parsers_agree_on_bytes :
     parse_stream Rdflib grouped strict (write_delimited fs) = pview (parse_stream Generic grouped strict (write_delimited fs)).
 Proof. exact rdflib_parser_is_view. Qed.
 Print Assumptions C15_parsers_agree_on_bytes.
+
+(* ---- the serializers, whole runs: an rdflib triples run and a generic triples run on streams made from the same options, over
+   corresponding data (the same RDF 1.1 statements and bindings), emit the same events -- frames, pulls, the exception if any *)
+From PJ.Proofs Require Import EncRdflib TwinRun.
+Theorem C15_serializers_agree_on_whole_triple_runs :
+  forall (o : soptions) (sr sg : stream) (d : rdata),
+    stream_new TripleStream Rdflib o = Ok sr -> stream_new TripleStream Generic o = Ok sg ->
+    rd_kind d <> RDataset -> stmts_rdf11 (rd_stmts d) = true ->
+    snd (triples_stream_frames (sdata_of d) sg) = snd (rdf_triples_stream_frames d sr).
+Proof. exact same_options_same_frames_triples. Qed.
+Print Assumptions C15_serializers_agree_on_whole_triple_runs.
+
+Theorem C15_serializers_agree_on_whole_quad_runs :
+  forall (o : soptions) (sr sr' sg : stream) (d : rdata) (evs : list tev),
+    stream_new QuadStream Rdflib o = Ok sr -> stream_new QuadStream Generic o = Ok sg ->
+    forallb spo_rdf11 (rd_stmts d) = true ->
+    rdf_quads_stream_frames d sr = (sr', evs) -> raised evs = None ->
+    snd (quads_stream_frames (sdata_inv d) sg) = evs.
+Proof. exact same_options_same_frames_quads. Qed.
+Print Assumptions C15_serializers_agree_on_whole_quad_runs.
